@@ -20,6 +20,7 @@ type CryptConfig struct {
 	WithMetadata      bool
 	Seekable          bool
 	HighNumbers       bool // object numbers up to 70000 (the xref section grows accordingly)
+	NumObjects        int  // number of write operations (default: 2-7)
 	MaxNumber         bool // with HighNumbers: object numbers around 0x03FFFF (a 262144-entry xref table: use sparingly)
 }
 
@@ -124,6 +125,9 @@ func BuildCryptDoc(r *kit.Rand, cfg CryptConfig) (*CryptDoc, error) {
 		}
 	}
 	n := 2 + r.Intn(6)
+	if cfg.NumObjects > 0 {
+		n = cfg.NumObjects
+	}
 	for i := 0; i < n; i++ {
 		switch r.Intn(4) {
 		case 0, 1:
